@@ -1,1 +1,5 @@
 // hook file for ntpd/src/daemon/server.rs: declares the per-property harness modules
+// --- builder P2a: C21 (ServerStats counters)
+#[cfg(any(verif_all, verif_c21))]
+#[path = "/verif/harness/ntpd/c21.rs"]
+mod c21;
